@@ -40,6 +40,8 @@ class Impl:
         self.bs = list(BS)
         self.stack_dim = 0
         self.allow_params = True   # TensorDictParams wrappers (a container of one tensordict) take part in the lock events
+        self.pending = []          # events that must follow the one just generated
+        self.allow_nts = True      # NonTensorData nodes and NonTensorStack (a lazy stack of them)
 
     # ---------------------------------------------------------------- helpers
     def new_leaf(self, version=0):
@@ -75,6 +77,14 @@ class Impl:
     def is_params(self, n):
         return n is not None and "_param_td" in getattr(n, "__dict__", {})
 
+    def is_nt(self, n):
+        from tensordict import NonTensorData
+        return isinstance(n, NonTensorData)
+
+    def is_pinned(self, n):
+        """`TensorDictParams(lock=True)`: the content is locked on its own and `unlock_()` of the wrapper is shallow"""
+        return self.is_params(n) and bool(getattr(n, "_lock_content", False))
+
     def is_lazy(self, n):
         from tensordict import LazyStackedTensorDict
         return isinstance(n, LazyStackedTensorDict)
@@ -86,7 +96,7 @@ class Impl:
         if self.is_tc(n):
             return list(n._tensordict._tensordict.items())
         if self.is_params(n):
-            return [("params", n._param_td)]       # the wrapper holds exactly one tensordict, its content
+            return [("params!" if self.is_pinned(n) else "params", n._param_td)]       # the wrapper holds exactly one tensordict, its content
         return list(n._tensordict.items())
 
     def kids(self, n):
@@ -193,14 +203,22 @@ class Impl:
                 self.keep.append(t)
                 d[k] = t
             # (a tensorclass is built per ordered field tuple; they are immortal and heavy for the collector: keep a small pool)
-            if [k for k, _ in kids] == ["params"] and not leaves:
-                # `TensorDictParams(td, no_convert="skip")`: the wrapper over the very tensordict (ctor with the reserved key `params`)
+            if [k for k, _ in kids] in (["params"], ["params!"]) and not leaves:
+                # `TensorDictParams(td, no_convert="skip")`: the wrapper over the very tensordict (ctor with the reserved key `params`);
+                # `params!` = `lock=True`: the content, locked by the event just before, is locked on its own
                 from tensordict.nn import TensorDictParams
-                obj = TensorDictParams(self.nodes[kids[0][1]], no_convert="skip")
+                obj = TensorDictParams(self.nodes[kids[0][1]], no_convert="skip", lock=kids[0][0] == "params!")
                 if lock:
                     obj.lock_()
                 self.nodes.append(obj)
-            elif len(ev) > 4 and ev[4] and d and (tuple(d) in self._TC or len(self._TC) < 24):
+            elif len(ev) > 4 and ev[4] == "nt" and not d:
+                # a NonTensorData: a tensorclass around an empty tensordict (no entry; the payload is not a binding)
+                from tensordict import NonTensorData
+                obj = NonTensorData(f"v{len(self.nodes)}", batch_size=self.bs, device="cpu")
+                if lock:
+                    obj.lock_()
+                self.nodes.append(obj)
+            elif len(ev) > 4 and ev[4] is True and d and (tuple(d) in self._TC or len(self._TC) < 24):
                 obj = self.tc_class(list(d))(**d, batch_size=self.bs, device="cpu")
                 if lock:
                     obj.lock_()
@@ -209,10 +227,15 @@ class Impl:
                 self.nodes.append(TensorDict(d, batch_size=self.bs, device="cpu", lock=lock))
         elif kind == "lazy":
             _, ms, lock = ev
-            self.nodes.append(LazyStackedTensorDict(*[self.nodes[j] for j in ms], stack_dim=self.stack_dim))
+            members = [self.nodes[j] for j in ms]
+            if members and all(self.is_nt(m) for m in members):
+                from tensordict import NonTensorStack
+                self.nodes.append(NonTensorStack(*members, stack_dim=self.stack_dim))     # same lock code as any lazy stack
+            else:
+                self.nodes.append(LazyStackedTensorDict(*members, stack_dim=self.stack_dim))
         elif kind == "lock":
             self.nodes[ev[1]].lock_()
-        elif kind == "unlock":
+        elif kind in ("unlock", "unlockshallow"):
             self.nodes[ev[1]].unlock_()
         elif kind == "share":
             before = self.leaf_snapshot(ev[1])
@@ -409,13 +432,37 @@ def gen_event(rng, impl: Impl, obj_counter):
             ls.append((k, obj_counter[0], 0))
         return ls
 
+    if impl.pending:
+        return impl.pending.pop(0)
+    # a `TensorDictParams(lock=True)` is a root only: a holder's `_propagate_unlock` stops at it (the content stays locked),
+    # which the deep `propUnlockF` of the model does not represent
+    pinned = [i for i in live if impl.is_pinned(impl.nodes[i])]
+    live_all = live
+    live = [i for i in live if i not in pinned]
     r = rng.random()
-    if impl.allow_params and plain and r < 0.025:
-        return ("ctor", [("params", rng.choice(plain))], [], rng.random() < 0.4, False)
+    # (the constructor registers the leaves as parameters / buffers: it iterates the content, which a heterogeneous lazy stack below refuses)
+    wrappable = [j for j in plain if not any(impl.is_lazy(x) for x in impl.reach(j))] if (impl.allow_params and r < 0.03) else []
+    if wrappable:
+        j = rng.choice(wrappable)
+        if rng.random() < 0.4:
+            impl.pending.append(("ctor", [("params!", j)], [], rng.random() < 0.5, False))
+            return ("lock", j)          # `lock=True` locks the content first
+        return ("ctor", [("params", j)], [], rng.random() < 0.4, False)
+    if pinned and r < 0.07:
+        i = rng.choice(pinned)
+        return (rng.choice(["unlockshallow", "unlockshallow", "lock", "gc"]), i) if not any(c is impl.nodes[i] for c in impl.ctx) else ("lock", i)
+    if impl.allow_nts and rng.random() < 0.05:
+        nts = [i for i in live if impl.is_nt(impl.nodes[i])]
+        if len(nts) >= 2 and rng.random() < 0.5:
+            ms = list(dict.fromkeys(rng.choice(nts) for _ in range(rng.randint(2, 3))))
+            return ("lazy", ms, False)
+        return ("ctor", [], [], rng.random() < 0.3, "nt")
     if len(live) < 3 or r < 0.16:
         nk = rng.choice([0, 0, 1, 1, 2, 3]) if live else 0
         ks = rng.sample(KID_KEYS, min(nk, len(KID_KEYS)))
-        kids = [(k, rng.choice(live)) for k in ks] if live else []
+        # (a NonTensorData bound into a tensordict is re-wrapped: only NonTensorStack keeps the very objects)
+        adopt = [i for i in live if not impl.is_nt(impl.nodes[i])]
+        kids = [(k, rng.choice(adopt)) for k in ks] if adopt else []
         return ("ctor", kids, fresh_leaves(), rng.random() < 0.3, rng.random() < 0.2)
     if r < 0.22 and plain:
         ms = [rng.choice(plain) for _ in range(rng.randint(1, 3))]
@@ -492,7 +539,7 @@ def gen_event(rng, impl: Impl, obj_counter):
         return ("mut", i, "tensorclass", rng.choice(["set_", "update_"]), False, ("write", rng.choice(keys_l)))
     if impl.is_lazy(n):
         cands = [j for j in plain if j < i]
-        if not cands:
+        if not cands or any(impl.is_nt(m) for m in n.tensordicts):
             return ("unlock", i)
         j = rng.choice(cands)
         if any(m is impl.nodes[j] for m in n.tensordicts):
@@ -507,7 +554,7 @@ def gen_event(rng, impl: Impl, obj_counter):
         return ("mut", i, "TensorDict", rng.choice(["set", "__setitem__", "update"]), False,
                 ("addleaf", rng.choice(LEAF_KEYS), obj_counter[0]))
     if q < 0.32:
-        cands = [j for j in live if j < i and not any(impl.nodes[j] is x for x in [n])]
+        cands = [j for j in live if j < i and not any(impl.nodes[j] is x for x in [n]) and not impl.is_nt(impl.nodes[j])]
         if cands:
             return ("mut", i, "TensorDict", rng.choice(["set", "__setitem__"]), False, ("addkid", rng.choice(KID_KEYS), rng.choice(cands)))
     if q < 0.47:
